@@ -124,10 +124,12 @@ def dual_choi_records(src=None):
     return out
 
 
-def _bilinear(out, which, groups):
+def _bilinear(out, which, groups, tier="quick"):
     """append the E1-array/bilinear obligations (all-dimension proofs of the channel operations), their lemmas and planted mutants"""
     from props import C04_bilinear as B
     from vt import extract
+
+    B.set_tier(tier)
 
     recs = B.records(groups) + B.lemmas(which)
     cache = {}
@@ -164,7 +166,7 @@ def _bilinear(out, which, groups):
 
 
 def prove(tier, seed):
-    return _bilinear(_prove("C04", TARGETS_C04), "C04", ["apply_channel", "partial_channel", "kraus_to_choi", "natural_representation"])
+    return _bilinear(_prove("C04", TARGETS_C04), "C04", ["apply_channel", "partial_channel", "kraus_to_choi", "natural_representation"], tier)
 
 
 def prove_c05(tier, seed):
@@ -186,4 +188,4 @@ def prove_c05(tier, seed):
         else:
             out["planted"]["survivors"].append("dual_channel: " + old)
     out["selfchecks"]["planted_bugs_all_refuted"] = {"ok": out["planted"]["tried"] == out["planted"]["refuted"], "detail": out["planted"]}
-    return _bilinear(out, "C05", ["dual_channel", "complementary_channel"])
+    return _bilinear(out, "C05", ["dual_channel", "complementary_channel"], tier)
